@@ -176,9 +176,9 @@ fn opts() -> impl Strategy<Value = SerOpts> {
 fn run(ctx: &Ctx) {
     ctx.run_regress::<Case, _>(check);
     let s1 = || Box::new((dyn_strategy(), opts()).prop_map(|(d, opts)| Case { value: Payload::Dyn(d), opts }));
-    ctx.run_proptest_with("dynamic-hostile-values", ctx.tier.pick(600_000, 8_000_000), s1, check);
+    ctx.run_proptest_with("dynamic-hostile-values", ctx.tier.pick(1_500_000, 12_000_000), s1, check);
     let s2 = || Box::new((any_val(), opts()).prop_map(|(v, opts)| Case { value: Payload::Family(v), opts }));
-    ctx.run_proptest_with("family-values-hostile-roots", ctx.tier.pick(300_000, 3_000_000), s2, check);
+    ctx.run_proptest_with("family-values-hostile-roots", ctx.tier.pick(600_000, 5_000_000), s2, check);
     // every hostile name in every position, exhaustively (names are the small static pools)
     let n = (STRUCT_NAMES.len() * FIELD_KEYS.len() * VARIANTS.len()) as u64;
     ctx.run_indexed(
